@@ -64,7 +64,7 @@ Qed.
 Lemma rev_head_split (cs : list name) n r : rev cs = n :: r -> cs = rev r ++ [n].
 Proof. intros H. apply (f_equal (@rev name)) in H. rewrite rev_involutive in H. exact H. Qed.
 
-(* 1. A relative module path is written UNDER the output directory: the components of the
+(* 1. A module path - relative or absolute (D17, repaired) - is written UNDER the output directory: the components of the
       directory, then the module's own directories, then `<file>.pn.ll`. *)
 Theorem ll_path_under_out_dir : forall d m,
   is_pn_module m = true ->
@@ -73,37 +73,35 @@ Theorem ll_path_under_out_dir : forall d m,
     absolute (ll_path d m) = absolute d /\
     comps (ll_path d m) = comps d ++ dirs ++ [file ++ [DOT; 108; 108]%N].
 Proof.
-  intros d m H. unfold is_pn_module in H. apply andb_true_iff in H as [Ha Hn].
-  apply negb_true_iff in Ha.
+  intros d m Hn. unfold is_pn_module in Hn.
   destruct (rev (comps m)) as [|n r] eqn:E; [discriminate|].
   apply rev_head_split in E. destruct (is_pn_name_spec n Hn) as (c & x & ->).
   exists (rev r), ((c :: x) ++ DOT :: PN). split; [exact E|].
-  unfold ll_path, push. rewrite Ha. cbn [absolute comps]. split; [reflexivity|].
+  unfold ll_path, push. cbn [absolute comps]. split; [reflexivity|].
   rewrite E, app_assoc, set_ext_comps_last, set_ext_pn, <- app_assoc. reflexivity.
 Qed.
 
-(* 2. Distinct modules get distinct files (nothing is overwritten). *)
+(* 2. Distinct modules get distinct files (nothing is overwritten); since the root of an absolute
+      path is dropped, `/x/a.pn` and `x/a.pn` are told apart only by that root. *)
 Theorem ll_path_injective : forall d m1 m2,
-  is_pn_module m1 = true -> is_pn_module m2 = true ->
+  is_pn_module m1 = true -> is_pn_module m2 = true -> absolute m1 = absolute m2 ->
   ll_path d m1 = ll_path d m2 -> m1 = m2.
 Proof.
-  intros d m1 m2 H1 H2 Heq.
+  intros d m1 m2 H1 H2 Habs Heq.
   destruct (ll_path_under_out_dir d m1 H1) as (d1 & f1 & E1 & _ & C1).
   destruct (ll_path_under_out_dir d m2 H2) as (d2 & f2 & E2 & _ & C2).
   rewrite Heq in C1. rewrite C1 in C2. apply app_inv_head in C2.
   assert (Hs : d1 = d2 /\ f1 ++ [DOT; 108; 108]%N = f2 ++ [DOT; 108; 108]%N).
   { apply app_inj_tail in C2. exact C2. }
   destruct Hs as [-> Hf]. apply app_inv_tail in Hf. subst f2.
-  unfold is_pn_module in H1, H2. apply andb_true_iff in H1 as [A1 _]. apply andb_true_iff in H2 as [A2 _].
-  apply negb_true_iff in A1. apply negb_true_iff in A2.
   destruct m1 as [a1 c1], m2 as [a2 c2]. cbn [absolute comps] in *. subst. reflexivity.
 Qed.
 
-(* 3. The two listed findings, as the complement of the hypothesis above. *)
-(* D17: an absolute module path is written next to the source, not under the directory *)
-Theorem absolute_module_escapes_refuted :
-  exists d m, absolute m = true /\ comps (ll_path d m) = set_ext_comps (comps m) /\
-              ~ (exists rest, comps (ll_path d m) = comps d ++ rest).
+(* 3. D17 at the pinned commit (repaired) and the listed finding D57. *)
+(* D17: with PathBuf::push an absolute module path was written next to the source, not under the directory *)
+Theorem absolute_module_escapes_pinned_refuted :
+  exists d m, absolute m = true /\ comps (ll_path_pinned d m) = set_ext_comps (comps m) /\
+              ~ (exists rest, comps (ll_path_pinned d m) = comps d ++ rest).
 Proof.
   exists (mkpath false [[111; 117; 116]%N]), (mkpath true [[116; 109; 112]%N; [97; 46; 112; 110]%N]).
   split; [reflexivity|]. split; [reflexivity|]. intros [rest H]. vm_compute in H. discriminate.
@@ -124,5 +122,18 @@ Proof. reflexivity. Qed.
 
 Print Assumptions ll_path_under_out_dir.
 Print Assumptions ll_path_injective.
-Print Assumptions absolute_module_escapes_refuted.
+Print Assumptions absolute_module_escapes_pinned_refuted.
 Print Assumptions same_stem_collides_refuted.
+
+(* D17 after the repair: the witness of the pinned behaviour now lands under the directory *)
+Example absolute_module_stays_inside :
+  ll_path (mkpath false [[111; 117; 116]%N]) (mkpath true [[116; 109; 112]%N; [97; 46; 112; 110]%N])
+  = mkpath false [[111; 117; 116]%N; [116; 109; 112]%N; [97; 46; 112; 110; 46; 108; 108]%N].
+Proof. reflexivity. Qed.
+(* what the extra hypothesis of ll_path_injective excludes *)
+Theorem root_only_difference_collides :
+  exists d m1 m2, is_pn_module m1 = true /\ is_pn_module m2 = true /\ m1 <> m2 /\ ll_path d m1 = ll_path d m2.
+Proof.
+  exists (mkpath false [[111; 117; 116]%N]), (mkpath true [[97; 46; 112; 110]%N]), (mkpath false [[97; 46; 112; 110]%N]).
+  repeat split; try reflexivity. discriminate.
+Qed.
